@@ -375,20 +375,19 @@ class C03(Sim):
         if not self.judged:
             return
         cfg = self.cfg
-        order = list(self.judged)
-        Rng(h64(cfg["seed"], "reorder", len(order))).shuffle(order)
+        # the independent order is a per-event hash order: removing events (minimisation) keeps the relative order of the others
+        order = sorted(self.judged, key=lambda e: h64(cfg["seed"], "reorder", e["uid"]))
         fresh = build_mesh(cfg["world"])
         ref = self._ref_for(fresh)
         self.probes["reordered_pass"] += 1
         for ev in order:
             self._run_any(fresh, ref, ev, "order-independence/")
-        r = Rng(h64(cfg["seed"], "fresh", len(order)))
         seen, cands = set(), []
         for ev in self.judged:
             if ev["op"] not in seen:
                 seen.add(ev["op"])
                 cands.append(ev)
-        r.shuffle(cands)
+        cands.sort(key=lambda e: h64(cfg["seed"], "fresh", e["uid"]))
         for ev in cands[:cfg["n_fresh"]]:
             m = build_mesh(cfg["world"])
             self.probes["fresh_single_query"] += 1
